@@ -204,6 +204,7 @@ def parse_schema(
     _write_hint: bool = True,
     _force: bool = False,
     _ignore_default_error: bool = False,
+    _names: Optional[Set[str]] = None,
 ) -> Schema:
     """Returns a parsed avro schema
 
@@ -232,6 +233,9 @@ def parse_schema(
     _ignore_default_error
         Internal API argument. If True, when a union has the wrong default
         value, an error will not be raised.
+    _names
+        Internal API argument. Full names already defined by the sibling
+        branches when parsing the members of a top level union one by one.
 
 
     Example::
@@ -296,7 +300,9 @@ def parse_schema(
         return schema
     elif isinstance(schema, list):
         # If we are given a list we should make sure that the immediate sub
-        # schemas have the hint in them
+        # schemas have the hint in them. The branches share the set of defined
+        # names so that a name defined by two branches is reported
+        names: Set[str] = set() if _names is None else _names
         return [
             parse_schema(
                 s,
@@ -305,6 +311,7 @@ def parse_schema(
                 _write_hint=_write_hint,
                 _force=_force,
                 _ignore_default_error=_ignore_default_error,
+                _names=names,
             )
             for s in schema
         ]
@@ -314,7 +321,7 @@ def parse_schema(
             "",
             expand,
             _write_hint,
-            set(),
+            set() if _names is None else _names,
             named_schemas,
             NO_DEFAULT,
             _ignore_default_error,
